@@ -43,6 +43,7 @@ SIZE = {
     "var": None,
     "nl": None,
     "fu64": 8,
+    "bu16": 2,
 }
 
 # Packing factor (elements per 32-byte chunk) of the basic kinds, None = not packed (composite).
@@ -59,6 +60,7 @@ PACKING = {
     "var": None,
     "nl": None,
     "fu64": 4,
+    "bu16": 16,
 }
 
 KINDS = tuple(SIZE.keys())
